@@ -1052,6 +1052,11 @@ type SExpr struct {
 	// can't tell that the class is side-effect free anymore because all of these
 	// methods mutate the class. We use this annotation for that instead.
 	IsFromClassOrFnThatCanBeRemovedIfUnused bool
+
+	// This is set to true for a string literal expression statement that was
+	// not in a directive prologue in the input. It must not end up as a
+	// directive in the output (e.g. if all statements before it are removed).
+	IsStringThatIsNotADirective bool
 }
 
 type EnumValue struct {
